@@ -131,15 +131,13 @@ def check(ck):
     P = fa.fi.params
     ck.need(len(P) >= 4, "BlobStrategy.store: expected (self, data source, key override, object) parameters")
     ds_p, ov_p, obj_p = P[1], P[2], P[3]
-    sha = fa.one([c for c in fa.calls("sha256")], "hashlib.sha256 call")
-    ok_alg = A.call_dotted(sha) == "hashlib.sha256"
+    # the hash object: hashlib.sha256(...) or hashlib.new("sha256", ...)
+    named = [c for c in fa.calls("new") if A.call_dotted(c) == "hashlib.new" and c.args and (A.const_str(c.args[0]) or "").lower().replace("-", "") == "sha256"]
+    sha = fa.one([c for c in fa.calls("sha256")] + named, "hashlib.sha256 call")
+    SHA_DEP = "call:" + A.call_attr(sha)
+    ok_alg = A.call_dotted(sha) == "hashlib.sha256" or sha in named
     ck.ob(R1, fa.key(sha, "algorithm"), ok_alg, "SHA-256" if ok_alg else "the content hash is not hashlib.sha256", fa.where(sha))
-    hashed = sha.args[0] if sha.args else None
-    if not isinstance(hashed, ast.Name):
-        ck.ob(R1, fa.key(sha, "same-bytes"), False,
-              "the hash is not computed over the local byte string that is written (hashing `%s`)" % A.short(hashed, 40), fa.where(sha))
-        return
-    # the digest is used in full (the hexdigest of that very hash object, not a slice of it)
+
     def is_sha(rv, at, depth=4):
         if rv is sha:
             return True
@@ -147,6 +145,18 @@ def check(ck):
             ds = fa.df.reaching(at, rv.id)
             return bool(ds) and all(d.kind == "assign" and d.value is not None and is_sha(d.value, d.node, depth - 1) for d in ds)
         return False
+    # what is fed to it: the constructor's data argument and every update() of that object
+    init_arg = (sha.args[1] if len(sha.args) > 1 else A.kwarg(sha, "data")) if sha in named else (sha.args[0] if sha.args else A.kwarg(sha, "data") or A.kwarg(sha, "string"))
+    fed = ([(init_arg, sha)] if init_arg is not None else []) + \
+        [(c.args[0] if c.args else None, c) for c in fa.calls("update") if fa.nodes(c) and is_sha(A.call_recv(c), fa.nodes(c)[0])]
+    hashed = fed[0][0] if len(fed) == 1 else None
+    if not isinstance(hashed, ast.Name):
+        ck.ob(R1, fa.key(sha, "same-bytes"), False,
+              "the hash is not computed over the local byte string that is written (hashing %s)" %
+              (" + ".join("`%s`" % A.short(e, 30) for (e, _c) in fed) if fed else "nothing"), fa.where(sha))
+        return
+    hashed_at = fed[0][1]
+    # the digest is used in full (the hexdigest of that very hash object, not a slice of it)
     hx = [c for c in fa.calls("hexdigest") if fa.nodes(c) and is_sha(A.call_recv(c), fa.nodes(c)[0])]
     par = fa.pm.get(hx[0]) if hx else None
     ok_hex = bool(hx) and not isinstance(par, ast.Subscript)
@@ -154,7 +164,7 @@ def check(ck):
     outs = fa.some(_ds_calls(fa, "output", ds_p), "data_source.output call")
     no_ov = Assume(fa, param_truth_atom(ov_p, False))
     with_ov = Assume(fa, param_truth_atom(ov_p, True))
-    hashed_roots = {r for i in fa.nodes(sha) for r in _roots(fa, hashed, i)}
+    hashed_roots = {r for i in fa.nodes(hashed_at) for r in _roots(fa, hashed, i)}
     any_content = False
     for o in outs:
         stream = o.args[1] if len(o.args) > 1 else A.kwarg(o, "data")
@@ -182,7 +192,7 @@ def check(ck):
                 if "call:output_key_for_content_key" not in dd:
                     ok_key = False
                     why.append("without an override the output key can be `%s`, which is not built from the content hash" % A.short(leaf, 50))
-                elif "call:sha256" not in dd or "call:hexdigest" not in dd:
+                elif SHA_DEP not in dd or "call:hexdigest" not in dd:
                     ok_key = False
                     why.append("content key does not derive from the sha256 hexdigest")
                 else:
@@ -191,7 +201,7 @@ def check(ck):
             for (leaf, n) in with_ov.cases(keyarg, i):
                 dd = fa.df.deps(leaf, n)
                 if "call:output_key_for_content_key" in dd:
-                    if "call:sha256" not in dd or "call:hexdigest" not in dd:
+                    if SHA_DEP not in dd or "call:hexdigest" not in dd:
                         ok_key = False
                         why.append("content key does not derive from the sha256 hexdigest")
                 elif not ("call:output_key_for_override_key" in dd and "param:" + ov_p in dd):
@@ -205,7 +215,7 @@ def check(ck):
             why = why + ["no definition of the output key derives from the content hash"]
         ck.ob(R1, fa.key(o, "key"), ok_key, "output key = content key unless overridden" if ok_key else "; ".join(sorted(set(why))), fa.where(o))
     hd = set()
-    for i in fa.nodes(sha):
+    for i in fa.nodes(hashed_at):
         hd |= fa.df.deps(hashed, i)
     ok_enc = "callq:self.encode" in hd and "param:" + obj_p in hd
     ck.ob(R1, fa.key(sha, "bytes-are-encoding"), ok_enc, "the hashed bytes are the encoding of the stored object" if ok_enc else
@@ -325,15 +335,87 @@ def expr_live(asm, expr, must=False):
     return out
 
 
+NONNULL_CALLS = ("get_versioned_key", "output")     # DataSource API: return a VersionedDataSourceKey, never None
+
+
+def refined(fa, atom, rounds=3):
+    """An Assume whose atoms additionally decide `x is None` / `x is not None` / the truth of `x` for a local `x`
+    from the definitions that reach the test on the paths the assumptions leave feasible (None, or the value of
+    a data-source call that never answers None).  This is how "result variable + `if result is None:`" spells
+    the same decision as an early return.  Computed by iteration: each round prunes with the reaching
+    definitions of the previous one (an over-approximation, so every decision taken is sound)."""
+    prev = None
+    asm = None
+    for _ in range(rounds):
+        asm = _Refined(fa, atom, prev)
+        IN = asm.IN()
+        sig = {n: frozenset((d.node, d.name) for d in ds) for n, ds in IN.items()}
+        if prev is not None and sig == prev[1]:
+            break
+        prev = (IN, sig)
+    return asm
+
+
+class _Refined(Assume):
+    def __init__(self, fa, atom, prev):
+        self._base_atom = atom
+        self._prev = prev[0] if prev is not None else None
+        self._at = None
+        self._names = set()
+        super().__init__(fa, self._atom)
+
+    def truth(self, test, node_id):
+        k = (id(test), node_id)
+        if k not in self._t:
+            old, self._at = (self._at, self._names), node_id
+            # only names the test itself reads are looked up at this node (a name brought in by expanding a
+            # temporary was evaluated elsewhere)
+            self._names = {x.id for x in ast.walk(test) if isinstance(x, ast.Name)}
+            try:
+                super().truth(test, node_id)
+            finally:
+                self._at, self._names = old
+        return self._t[k]
+
+    def _noneness(self, e, at, depth=4):
+        """'none' / 'object' / None (unknown) for the value of expression e at node `at`."""
+        if A.is_none(e):
+            return "none"
+        if isinstance(e, ast.Call) and A.call_attr(e) in NONNULL_CALLS:
+            return "object"
+        if isinstance(e, ast.IfExp):
+            a, b = self._noneness(e.body, at, depth), self._noneness(e.orelse, at, depth)
+            return a if a == b else None
+        if isinstance(e, ast.Name) and depth > 0 and self._prev is not None and at is not None and (at != self._at or e.id in self._names):
+            ds = [d for d in self._prev.get(at, ()) if d.name == e.id]
+            if not ds or not all(d.kind == "assign" and d.value is not None for d in ds):
+                return None
+            vals = {self._noneness(d.value, d.node, depth - 1) for d in ds}
+            return vals.pop() if len(vals) == 1 else None
+        return None
+
+    def _atom(self, e):
+        v = self._base_atom(e)
+        if v is not None:
+            return v
+        if isinstance(e, ast.Compare) and len(e.ops) == 1 and isinstance(e.ops[0], (ast.Is, ast.Eq)) and A.is_none(e.comparators[0]):
+            k = self._noneness(e.left, self._at)
+            return None if k is None else (k == "none")
+        if isinstance(e, ast.Name):
+            k = self._noneness(e, self._at)
+            return None if k is None else (k == "object")
+        return None
+
+
 def _check_dedupe(ck, fa, ex, outs, R2):
     """Decided on what is reachable under assumptions about the two facts that matter (is there an override?
     does the content key exist?), not on the shape of the tests."""
     P = fa.fi.params
     ov_p = P[2] if len(P) > 2 else "key_override"
     EX = ("exists_nonversioned",)
-    present = Assume(fa, param_truth_atom(ov_p, False, call_atom(EX, True)))
-    absent = Assume(fa, param_truth_atom(ov_p, False, call_atom(EX, False)))
-    with_ov = Assume(fa, param_truth_atom(ov_p, True))
+    present = refined(fa, param_truth_atom(ov_p, False, call_atom(EX, True)))
+    absent = refined(fa, param_truth_atom(ov_p, False, call_atom(EX, False)))
+    with_ov = refined(fa, param_truth_atom(ov_p, True))
     live = present.reach()
     # evaluated, not merely "in a statement that runs": `reuse(k) if present else output(k, ...)` writes nothing
     ok = not any(expr_live(present, o) for o in outs)
@@ -553,12 +635,16 @@ def _rest(ck, fa, R3, R4, R5, R6):
     kp = pp.fi.params[1] if len(pp.fi.params) > 1 else "key"
     fields = _namedtuple_fields(ck, "storage_base", ("result_type", "content_key"))
     at = pp.nodes(lc)[0]
-    okp = len(lc.args) == 3 and not lc.keywords
+    # by the callee's parameter names, so positional and keyword spellings are the same call
+    cl = ck.repo.try_func("storage_base.Codec.load")
+    lparams = [p_ for p_ in (cl.params if cl is not None else ["self", "result_type", "data_source", "key"]) if p_ != "self"]
+    largs = [A.arg_or_kw(lc, i, pn) for i, pn in enumerate(lparams[:3])]
+    okp = len(lc.args) + len(lc.keywords) == 3 and all(a is not None for a in largs)
     if okp:
-        rt, ckf = _entry_field(pp, lc.args[0], at, fields), _entry_field(pp, lc.args[2], at, fields)
+        rt, ckf = _entry_field(pp, largs[0], at, fields), _entry_field(pp, largs[2], at, fields)
         entries = ("self._index[%s]" % kp, "self._index.get(%s)" % kp)
         okp = rt is not None and ckf is not None and rt[1] == "result_type" and ckf[1] == "content_key" \
-            and rt[0] == ckf[0] and rt[0] in entries and pp.xnorm(lc.args[1], at) == "self._data_source"
+            and rt[0] == ckf[0] and rt[0] in entries and pp.xnorm(largs[1], at) == "self._data_source"
     ck.ob(R3, pp.key(None, "loads-indexed-key"), okp, "partition values are loaded by their indexed versioned key" if okp else
           "partition get() does not load (entry.result_type, data source, entry.content_key)", pp.where(lc))
     pi = FA(ck, "storage_base.DefaultCodec.PicklePartition.__init__")
